@@ -2,7 +2,11 @@
 // (1) one compiled expression is invoked from many goroutines at once, (2) separate engines
 // compile concurrently, (3) one engine that has finished its first compilation compiles
 // concurrently; every outcome is compared with the outcome of the same operation run alone.
-// The race detector's reports go to stderr ("WARNING: DATA RACE") and set the exit code.
+// Every scenario runs on the three compilers (bytecode, closure, AST interpreter); the goroutines
+// of scenario (1) use DIFFERENT environments on the same compiled expression (so a value leaking
+// from one invocation into another shows as a wrong outcome, not only as a race report); scenario
+// (4): one parsed tree compiled concurrently on a warmed-up engine against different type
+// environments.  The race detector's reports go to stderr ("WARNING: DATA RACE") and set the exit code.
 package main
 
 import (
@@ -15,6 +19,9 @@ import (
 	"time"
 
 	"github.com/goghcrow/yae"
+	"github.com/goghcrow/yae/conv"
+	"github.com/goghcrow/yae/interp"
+	"github.com/goghcrow/yae/parser/ast"
 	"github.com/goghcrow/yae/types"
 	"github.com/goghcrow/yae/val"
 )
@@ -62,7 +69,49 @@ func hostFuns() []*val.Val {
 	return []*val.Val{tr, lz}
 }
 
-func newEngine() *yae.Expr { return yae.NewExpr().RegisterFun(hostFuns()...) }
+var compilers = []string{"vm", "closure", "interp"}
+
+func newEngineWith(comp string) *yae.Expr {
+	e := yae.NewExpr().RegisterFun(hostFuns()...)
+	switch comp {
+	case "closure":
+		e.UseClosureCompiler()
+	case "interp":
+		e.UseCompiler(interp.Interp)
+	}
+	return e
+}
+
+func newEngine() *yae.Expr { return newEngineWith("vm") }
+
+// envVariant: the environment goroutine g uses (same Go type, different contents)
+func envVariant(g int) env {
+	k := float64(g)
+	return env{N1: 2.5 + k, S1: "aaa"[:1+g%3], B1: g%2 == 0, Xs: []float64{1 + k, 2, 2.5 + k},
+		M: map[string]float64{"k1": 1 + k, "k2": 2}, T1: time.Unix(1600000000+int64(g)*86400*400, 0).UTC()}
+}
+
+// programs for scenario (4): well typed whatever the type of x is
+var polyPrograms = []string{
+	`[x, x]`, `string(x)`, `x == x`, `kind(x)`, `{a: x, b: [x]}.b`, `["k": x]["k"]`, `if(x == x, x, x)`, `len([x, x, x])`,
+}
+
+type envNum struct {
+	X float64 `yae:"x"`
+}
+type envStr struct {
+	X string `yae:"x"`
+}
+type envList struct {
+	X []float64 `yae:"x"`
+}
+
+func kindFuns() []*val.Val {
+	mk := func(t *types.Type, name string) *val.Val {
+		return val.Fun(types.Fun("kind", []*types.Type{t}, types.Str), func(a ...*val.Val) *val.Val { return val.Str(name) })
+	}
+	return []*val.Val{mk(types.Num, "num"), mk(types.Str, "str"), mk(types.List(types.Num), "list")}
+}
 
 type result struct {
 	Evaluations int      `json:"evaluations"`
@@ -92,42 +141,112 @@ func main() {
 	// sequential reference outcomes
 	seq := map[string]string{}
 	compileErr := map[string]string{}
-	for _, p := range programs {
-		c, err := newEngine().Compile(p, e)
-		if err != nil {
-			compileErr[p] = err.Error()
-			continue
+	for _, comp := range compilers {
+		for _, p := range programs {
+			c, err := newEngineWith(comp).Compile(p, e)
+			if err != nil {
+				compileErr[comp+"|"+p] = err.Error()
+				continue
+			}
+			seq[comp+"|"+p] = describe(c(e))
 		}
-		seq[p] = describe(c(e))
 	}
 	count := 0
-	// (1) one callable, many goroutines
-	for _, p := range programs {
-		c, err := newEngine().Compile(p, e)
-		if err != nil {
-			continue
-		}
-		var wg sync.WaitGroup
-		for g := 0; g < *gor; g++ {
-			wg.Add(1)
-			off := time.Duration(r.Intn(200)) * time.Microsecond
-			go func() {
-				defer wg.Done()
-				time.Sleep(off)
-				for i := 0; i < *iters/10+1; i++ {
-					if got := describe(c(e)); got != seq[p] {
-						mismatch(fmt.Sprintf("invoke %q concurrently: %s, alone: %s", p, got, seq[p]))
-					}
+	// (1) one callable, many goroutines, each with its own environment contents
+	for _, comp := range compilers {
+		for _, p := range programs {
+			c, err := newEngineWith(comp).Compile(p, e)
+			if err != nil {
+				continue
+			}
+			// what each goroutine's environment gives when evaluated alone (fresh engine)
+			alone := make([]string, *gor)
+			envs := make([]env, *gor)
+			for g := 0; g < *gor; g++ {
+				envs[g] = envVariant(g)
+				c1, err1 := newEngineWith(comp).Compile(p, envs[g])
+				if err1 != nil {
+					alone[g] = "compile error: " + err1.Error()
+					continue
 				}
-			}()
-			count += *iters/10 + 1
+				alone[g] = describe(c1(envs[g]))
+			}
+			var wg sync.WaitGroup
+			for g := 0; g < *gor; g++ {
+				wg.Add(1)
+				off := time.Duration(r.Intn(200)) * time.Microsecond
+				g := g
+				go func() {
+					defer wg.Done()
+					time.Sleep(off)
+					for i := 0; i < *iters/30+1; i++ {
+						if got := describe(c(envs[g])); got != alone[g] {
+							mismatch(fmt.Sprintf("[%s] invoke %q concurrently with environment #%d: %s, alone: %s", comp, p, g, got, alone[g]))
+						}
+					}
+				}()
+				count += *iters/30 + 1
+			}
+			wg.Wait()
 		}
-		wg.Wait()
+	}
+	// (4) one parsed tree, compiled concurrently against different type environments
+	for _, comp := range compilers {
+		eng := newEngineWith(comp).RegisterFun(kindFuns()...)
+		if _, err := eng.Compile("1", envNum{1}); err != nil {
+			mismatch("warm-up compile failed: " + err.Error())
+		}
+		hosts := []interface{}{envNum{7}, envStr{"s"}, envList{[]float64{1, 2}}}
+		for _, p := range polyPrograms {
+			aloneP := make([]string, len(hosts))
+			for h, host := range hosts {
+				fe := newEngineWith(comp).RegisterFun(kindFuns()...)
+				c1, err1 := fe.Compile(p, host)
+				if err1 != nil {
+					aloneP[h] = "compile error: " + err1.Error()
+				} else {
+					aloneP[h] = describe(c1(host))
+				}
+			}
+			parsed := func() (t interface{}) {
+				defer func() {
+					if rec := recover(); rec != nil {
+						t = nil
+					}
+				}()
+				return eng.Parse(p)
+			}()
+			if parsed == nil {
+				continue
+			}
+			var wg sync.WaitGroup
+			for g := 0; g < *gor; g++ {
+				wg.Add(1)
+				g := g
+				off := time.Duration(r.Intn(100)) * time.Microsecond
+				go func() {
+					defer wg.Done()
+					time.Sleep(off)
+					for i := 0; i < *iters/40+1; i++ {
+						h := (g + i) % len(hosts)
+						got := compileParsed(eng, parsed, hosts[h])
+						if got != aloneP[h] {
+							mismatch(fmt.Sprintf("[%s] one parsed tree of %q compiled concurrently against %T: %s, alone: %s", comp, p, hosts[h], got, aloneP[h]))
+						}
+					}
+				}()
+				count += *iters/40 + 1
+			}
+			wg.Wait()
+		}
 	}
 	// (2) separate engines compile (and run) concurrently; (3) one warmed-up engine shared
-	shared := newEngine()
-	if _, err := shared.Compile("1", e); err != nil {
-		mismatch("warm-up compile failed: " + err.Error())
+	sharedBy := map[string]*yae.Expr{}
+	for _, comp := range compilers {
+		sharedBy[comp] = newEngineWith(comp)
+		if _, err := sharedBy[comp].Compile("1", e); err != nil {
+			mismatch("warm-up compile failed: " + err.Error())
+		}
 	}
 	var wg sync.WaitGroup
 	for g := 0; g < *gor; g++ {
@@ -138,23 +257,24 @@ func main() {
 			time.Sleep(time.Duration(gr.Intn(300)) * time.Microsecond)
 			for i := 0; i < *iters; i++ {
 				p := programs[gr.Intn(len(programs))]
-				eng := shared
+				comp := compilers[gr.Intn(len(compilers))]
+				eng := sharedBy[comp]
 				if gr.Intn(2) == 0 {
-					eng = newEngine()
+					eng = newEngineWith(comp)
 				}
 				c, err := eng.Compile(p, e)
 				if err != nil {
-					if compileErr[p] == "" {
+					if compileErr[comp+"|"+p] == "" {
 						mismatch(fmt.Sprintf("compile %q concurrently fails: %v; alone it succeeds", p, err))
 					}
 					continue
 				}
-				if compileErr[p] != "" {
-					mismatch(fmt.Sprintf("compile %q concurrently succeeds; alone: %s", p, compileErr[p]))
+				if compileErr[comp+"|"+p] != "" {
+					mismatch(fmt.Sprintf("compile %q concurrently succeeds; alone: %s", p, compileErr[comp+"|"+p]))
 					continue
 				}
-				if got := describe(c(e)); got != seq[p] {
-					mismatch(fmt.Sprintf("compile+invoke %q concurrently: %s, alone: %s", p, got, seq[p]))
+				if got := describe(c(e)); got != seq[comp+"|"+p] {
+					mismatch(fmt.Sprintf("[%s] compile+invoke %q concurrently: %s, alone: %s", comp, p, got, seq[comp+"|"+p]))
 				}
 			}
 		}()
@@ -164,7 +284,7 @@ func main() {
 	res.Evaluations = count
 	res.Distinct = len(programs)
 	for _, p := range programs[:6] {
-		res.Samples = append(res.Samples, fmt.Sprintf("%q => %s%s", p, seq[p], compileErr[p]))
+		res.Samples = append(res.Samples, fmt.Sprintf("%q => %s%s", p, seq["vm|"+p], compileErr["vm|"+p]))
 	}
 	if *out != "" {
 		b, _ := json.MarshalIndent(res, "", " ")
@@ -177,4 +297,24 @@ func main() {
 		}
 		os.Exit(3)
 	}
+}
+
+// compileParsed: CompileExpr + invoke through the public API, panics turned into an outcome
+func compileParsed(eng *yae.Expr, parsed interface{}, host interface{}) (out string) {
+	defer func() {
+		if rec := recover(); rec != nil {
+			out = fmt.Sprintf("compile error: %v", rec)
+		}
+	}()
+	tenv, err := conv.TypeEnvOf(host)
+	if err != nil {
+		return "compile error: " + err.Error()
+	}
+	venv, err := conv.ValEnvOf(host)
+	if err != nil {
+		return "compile error: " + err.Error()
+	}
+	closure := eng.CompileExpr(parsed.(ast.Expr), tenv)
+	rt := venv.Inherit(eng.RuntimeEnvHook())
+	return describe(closure(rt), nil)
 }
